@@ -112,7 +112,7 @@ class IgnHooks(Hooks):
             "path.stat().st_size == 0": "size0",
             "len(path.parent.parts) > 0": "has_parent",
             "path.parent.parts": "has_parent",
-            "any((Path(file_).is_relative_to(path.resolve()) for file_ in subset_files))": "dir_has_subset",
+            "any(Path(file_).is_relative_to(path.resolve()) for file_ in subset_files)": "dir_has_subset",
             "any(pattern.match(path.name) for pattern in _IGNORE_FILE_PATTERNS)": "filepat",
             "any(pattern.match(path.name) for pattern in _IGNORE_DIR_PATTERNS)": "dirpat",
             "any(pattern.match(path.parent.parts[-1]) for pattern in _IGNORE_MESON_PARENT_DIR_PATTERNS)": "meson_parent",
